@@ -13,7 +13,7 @@ def build_rows(ctx, scns, schedules_of, perss):
     out, meta = [], []
     for sc in scns:
         ex = wire.render(sc["x"])
-        for pers in perss(sc):
+        for pers in dict.fromkeys(perss(sc)):          # distinct personalities only: run names (and with them trace points / replays) must be unique
             fam = []
             for label, arr in schedules_of(ex, rnd):
                 name = "w/i%d.n%d.p%d.%s" % (sc["i"], sc["n"], pers, label)
@@ -22,6 +22,7 @@ def build_rows(ctx, scns, schedules_of, perss):
                     continue              # illegal draw (response before its request head): not a well-formed schedule
                 out.append(s)
                 meta.append({"i": sc["i"], "n": sc["n"], "sched": label, "pers": pers, "whole": label == "whole", "fam": (sc["i"], sc["n"], pers)})
+    assert len({s.name for s in out}) == len(out), "duplicate run names"
     return out, meta
 
 
